@@ -157,6 +157,8 @@ pub struct RegWorld {
   pub has_locker: bool,
   /// lockfile package-manifest checksums: (name@version, matches the served manifest?)
   pub lock_manifests: Vec<(String, bool)>,
+  /// lockfile remote entries: (URL, matches the served bytes?) - also for https URLs into the registry
+  pub lock_remote: Vec<(String, bool)>,
 }
 
 pub fn day(t: i64) -> chrono::DateTime<chrono::Utc> {
@@ -232,10 +234,16 @@ pub fn to_module_graph_1_with(v2: &serde_json::Value, bare: bool) -> serde_json:
         let line = ts["range"][0][0].as_u64().unwrap();
         let comment_text = if bare { format!(" @deno-types={}", text) } else { format!(" @deno-types=\"{}\"", text) };
         let end = 2 + comment_text.len() as u64;
-        o.insert(
-          "leadingComments".into(),
-          json!([{"text": comment_text, "range": [[line, 0], [line, end]]}]),
-        );
+        // the pragma is the last of possibly several leading comments (a licence header, a note)
+        let mut comments = vec![];
+        if (line + text.len() as u64) % 3 != 0 {
+          comments.push(json!({"text": " Copyright the authors. MIT licence.", "range": [[0, 0], [0, 38]]}));
+        }
+        if (line + text.len() as u64) % 5 == 1 {
+          comments.push(json!({"text": " @deno-types=\"./other-types-that-do-not-apply.d.ts\"", "range": [[0, 0], [0, 50]]}));
+        }
+        comments.push(json!({"text": comment_text, "range": [[line, 0], [line, end]]}));
+        o.insert("leadingComments".into(), serde_json::Value::Array(comments));
       }
     }
   }
@@ -390,6 +398,7 @@ impl RegWorld {
       "cached": self.cached,
       "has_locker": self.has_locker,
       "lock_manifests": self.lock_manifests,
+      "lock_remote": self.lock_remote,
       "roots": self.roots,
       "user": self.user.iter().map(|u| json!({"url": u.url, "items": u.items.iter().map(|i| format!("{:?} {}", i.form, i.text)).collect::<Vec<_>>()})).collect::<Vec<_>>(),
       "pkgs": self.pkgs.iter().map(|p| json!({
@@ -579,6 +588,12 @@ pub fn initial_locker(w: &RegWorld) -> Option<RegLocker> {
       l.manifests.insert(nv.clone(), c);
     }
   }
+  let served = w.served();
+  for (u, good) in &w.lock_remote {
+    if let Some(Served { fresh: Ans::Bytes(b), .. }) = served.get(u) {
+      l.remote.insert(u.clone(), if *good { sha256_hex(b) } else { sha256_hex(b"bytes the lockfile was made from") });
+    }
+  }
   Some(l)
 }
 
@@ -747,6 +762,10 @@ pub fn gen_reg_world(rng: &mut Rng, cfg: &RegCfg) -> RegWorld {
             let rel = if path.starts_with("/lib/") { format!("..{}", other) } else { rel };
             if other.ends_with(".json") {
               items.push(Item { form: Form::With("json".into()), text: rel });
+            } else if rng.chance(1, 14) {
+              // an attribute type that does not fit the target: an error entry whichever way the module is learnt about
+              let t = *pick(rng, &["json", "stylesheet", "text"]);
+              items.push(Item { form: Form::With(t.into()), text: rel });
             } else if other.ends_with(".d.ts") && path.ends_with(".js") {
               items.push(Item { form: Form::SelfTypes, text: rel });
             } else if other.ends_with(".d.ts") && rng.chance(1, 2) {
@@ -889,5 +908,6 @@ pub fn gen_reg_world(rng: &mut Rng, cfg: &RegCfg) -> RegWorld {
     cached,
     has_locker,
     lock_manifests,
+    lock_remote: vec![],
   }
 }
